@@ -9,66 +9,66 @@ const vT = "{namespace a}\n{template .b}\n"
 // parseCtx: concrete contexts that put lexer and parser into each of their states; the symbolic
 // bytes go between pre and post.
 var parseCtx = []struct{ pre, post string }{
-	{"", ""},                                   // 0 file level
-	{"{namespace ", ""},                        // 1
-	{"{namespace a}\n/** ", ""},                // 2 soydoc
-	{"{namespace a}\n/** @param ", ""},         // 3
+	{"", ""},                                    // 0 file level
+	{"{namespace ", ""},                         // 1
+	{"{namespace a}\n/** ", ""},                 // 2 soydoc
+	{"{namespace a}\n/** @param ", ""},          // 3
 	{"{namespace a}\n/** x */\n{template ", ""}, // 4
-	{vT, ""},                                   // 5 template body
-	{vT, "{/template}\n"},                      // 6 body with valid tail
-	{vT + "{", ""},                             // 7
-	{vT + "{{", ""},                            // 8
-	{vT + "{print ", ""},                       // 9
-	{vT + "{if ", ""},                          // 10
-	{vT + "{if $x}a{elseif ", ""},              // 11
-	{vT + "{switch $x}", ""},                   // 12
-	{vT + "{switch $x}{case ", ""},             // 13
-	{vT + "{foreach $x in ", ""},               // 14
-	{vT + "{for $i in range(", ""},             // 15
-	{vT + "{let $x", ""},                       // 16
-	{vT + "{let $x:", ""},                      // 17
-	{vT + "{call .t", ""},                      // 18
-	{vT + "{call .t}", ""},                     // 19
-	{vT + "{call .t}{param k", ""},             // 20
-	{vT + "{css ", ""},                         // 21
-	{vT + "{@param x", ""},                     // 22
-	{vT + "{@param x: ", ""},                   // 23
-	{vT + "{literal}", ""},                     // 24
-	{vT + "{msg desc=\"\"}", ""},               // 25
-	{vT + "{msg desc=\"\"}{plural $x}", ""},    // 26
-	{"{namespace a}\n{alias ", ""},             // 27
-	{vT + "{'str", ""},                         // 28
-	{vT + "/* comm", ""},                       // 29
-	{vT + "a // comm", ""},                     // 30
-	{vT + "{$x.", ""},                          // 31
-	{vT + "{$x[", ""},                          // 32
-	{vT + "{['a':", ""},                        // 33
-	{vT + "{f(", ""},                           // 34
-	{vT + "{$x|", ""},                          // 35
-	{vT + "{$x|truncate:", ""},                 // 36
-	{vT + "{call .t data=\"", ""},              // 37
-	{vT + "{msg desc=\"", ""},                  // 38
-	{vT + "{$x ", "}\n{/template}\n"},          // 39 inside a print, valid tail
-	{vT + "{if $x}", "{/if}\n{/template}\n"},   // 40 inside an if block, valid tail
-	{vT + "{msg desc=\"\"}{plural $x}{case 1}", ""}, // 41
-	{vT + "{call .t}{param k}", ""},            // 42
-	{vT + "{foreach $x in $y}", ""},            // 43
-	{vT + "{let $x}", ""},                      // 44
-	{vT + "{1", ""},                            // 45 number
-	{vT + "{css $x,", ""},                      // 46
-	{vT + "{\\", ""},                           // 47 special char
-	{vT + "{/", ""},                            // 48 command end
-	{vT + "{$x ? ", ""},                        // 49
-	{vT + "{'\\u", ""},                         // 50 unicode escape in a string literal
-	{vT + "{'a\\u1", "'}\n{/template}\n"},       // 51 short unicode escape before the closing quote
+	{vT, ""},                                               // 5 template body
+	{vT, "{/template}\n"},                                  // 6 body with valid tail
+	{vT + "{", ""},                                         // 7
+	{vT + "{{", ""},                                        // 8
+	{vT + "{print ", ""},                                   // 9
+	{vT + "{if ", ""},                                      // 10
+	{vT + "{if $x}a{elseif ", ""},                          // 11
+	{vT + "{switch $x}", ""},                               // 12
+	{vT + "{switch $x}{case ", ""},                         // 13
+	{vT + "{foreach $x in ", ""},                           // 14
+	{vT + "{for $i in range(", ""},                         // 15
+	{vT + "{let $x", ""},                                   // 16
+	{vT + "{let $x:", ""},                                  // 17
+	{vT + "{call .t", ""},                                  // 18
+	{vT + "{call .t}", ""},                                 // 19
+	{vT + "{call .t}{param k", ""},                         // 20
+	{vT + "{css ", ""},                                     // 21
+	{vT + "{@param x", ""},                                 // 22
+	{vT + "{@param x: ", ""},                               // 23
+	{vT + "{literal}", ""},                                 // 24
+	{vT + "{msg desc=\"\"}", ""},                           // 25
+	{vT + "{msg desc=\"\"}{plural $x}", ""},                // 26
+	{"{namespace a}\n{alias ", ""},                         // 27
+	{vT + "{'str", ""},                                     // 28
+	{vT + "/* comm", ""},                                   // 29
+	{vT + "a // comm", ""},                                 // 30
+	{vT + "{$x.", ""},                                      // 31
+	{vT + "{$x[", ""},                                      // 32
+	{vT + "{['a':", ""},                                    // 33
+	{vT + "{f(", ""},                                       // 34
+	{vT + "{$x|", ""},                                      // 35
+	{vT + "{$x|truncate:", ""},                             // 36
+	{vT + "{call .t data=\"", ""},                          // 37
+	{vT + "{msg desc=\"", ""},                              // 38
+	{vT + "{$x ", "}\n{/template}\n"},                      // 39 inside a print, valid tail
+	{vT + "{if $x}", "{/if}\n{/template}\n"},               // 40 inside an if block, valid tail
+	{vT + "{msg desc=\"\"}{plural $x}{case 1}", ""},        // 41
+	{vT + "{call .t}{param k}", ""},                        // 42
+	{vT + "{foreach $x in $y}", ""},                        // 43
+	{vT + "{let $x}", ""},                                  // 44
+	{vT + "{1", ""},                                        // 45 number
+	{vT + "{css $x,", ""},                                  // 46
+	{vT + "{\\", ""},                                       // 47 special char
+	{vT + "{/", ""},                                        // 48 command end
+	{vT + "{$x ? ", ""},                                    // 49
+	{vT + "{'\\u", ""},                                     // 50 unicode escape in a string literal
+	{vT + "{'a\\u1", "'}\n{/template}\n"},                  // 51 short unicode escape before the closing quote
 	{vT + "{call .t data=\"1 + ", " 2\"/}\n{/template}\n"}, // 52 inside a quoted attribute expression, tokens follow
-	{vT + "{css (1 ", " 2) c, x}\n{/template}\n"},            // 53 inside the css expression, tokens follow
+	{vT + "{css (1 ", " 2) c, x}\n{/template}\n"},          // 53 inside the css expression, tokens follow
 	{vT + "{call .t}{param k value=\"[1, 2 ", " 3]\"/}{/call}\n{/template}\n"}, // 54
-	{vT + "{['\\u12", "': 1]}\n{/template}\n"}, // 55 short unicode escape in a map key
-	{"\xef\xbb\xbf", ""},                        // 56 file starting with a byte order mark
-	{"\xef\xbb", "{namespace a}\n"},             // 57 two bytes of a byte order mark
+	{vT + "{['\\u12", "': 1]}\n{/template}\n"},                                 // 55 short unicode escape in a map key
+	{"\xef\xbb\xbf", ""},            // 56 file starting with a byte order mark
+	{"\xef\xbb", "{namespace a}\n"}, // 57 two bytes of a byte order mark
 	{"\xef\xbb\xbf{namespace a}\n/** */\n{template .b}\n", "\n{/template}\n"}, // 58 valid file after a byte order mark
-	{"\xff\xfe", ""},                             // 59 UTF-16 byte order mark
+	{"\xff\xfe", ""}, // 59 UTF-16 byte order mark
 }
 
 // exprCtx: the same for parse.Expr
@@ -165,7 +165,6 @@ func H_validFile() {
 	verifAssert(err == nil && node != nil, "harness: validFile does not parse")
 	verifObserveInt("len", len(validFile))
 }
-
 
 // H_parseRace (C09): happens-before check of every heap access during a parse: the scanner
 // goroutine and the parser share memory only through the token channel.
